@@ -13,6 +13,7 @@
   (the gradient along every differentiable curve through `x`, not only along lines).
 -/
 import Scico.Proofs.AutogradConvex
+import Scico.Proofs.AutogradOpTree
 import Scico.Proofs.AutogradComplex
 
 namespace Scico.Props.C07
@@ -342,6 +343,20 @@ theorem C07_operator_jacobian (F : Op ℝ n m) (u v : CVec ℝ n) (w : CVec ℝ 
     reInner (vjpWrap true (F.vjpT u) w) v = reInner w (F.jvp u v) := by
   refine ⟨?_, op_vjpT_transpose F u, vjp_conj_real_adjoint (F.jvp u) (F.vjpT u) (op_vjpT_transpose F u) w v⟩
   have h := tangent_op F (tangent_along u v)
+  simp only [along_zero] at h
+  exact h
+
+/-- **operator algebra**: for every operator built from the family `Op` with `F(G)`, `F + G`, `F − G`, `a·F` (complex `a`)
+    and `−F`, to any depth (`OpT`; each is a new `Operator` whose `eval_fn` closes over the operands), the chain/sum-rule
+    `OpT.jvp` **is** the derivative of the composed map along every line, `OpT.vjpT` (cotangent pulled back through the
+    tree in reverse) is its transpose for JAX's pairing, hence `Gmap = T.vjp(u, conjugate=True)[1]` is the adjoint of the
+    Jacobian-vector product — no hypothesis; these also discharge `hJ`, `hG` of `C07_chain_nonlinear` for such `T`. -/
+theorem C07_operator_tree (T : OpT ℝ n m) (u v : CVec ℝ n) (w : CVec ℝ m) :
+    Tangent (fun t => T.eval (along u v t)) (T.jvp u v) ∧
+    (∀ c d, reBdot (T.vjpT u c) d = reBdot c (T.jvp u d)) ∧
+    reInner (vjpWrap true (T.vjpT u) w) v = reInner w (T.jvp u v) := by
+  refine ⟨?_, opT_vjpT_transpose T u, vjp_conj_real_adjoint (T.jvp u) (T.vjpT u) (opT_vjpT_transpose T u) w v⟩
+  have h := tangent_opT T (tangent_along u v)
   simp only [along_zero] at h
   exact h
 
@@ -708,6 +723,12 @@ example : IsProjection (n := 3) (fun z => ∀ i, 0 ≤ (z i).re) (fun z i => ⟨
   · rw [max_eq_right h]
     have := hz i
     nlinarith
+
+-- `C07_operator_tree` on a concrete tree `F(F + i·F) − F` over a non-holomorphic quadratic leaf
+example : let F : Op ℝ 1 1 := ⟨fun _ _ => ⟨1, 0⟩, fun _ _ => ⟨0, 1⟩, fun _ _ => ⟨1, 0⟩, fun _ => 0⟩
+    let T : OpT ℝ 1 1 := .sub (.comp (.leaf F) (.add (.leaf F) (.smul ⟨0, 1⟩ (.leaf F)))) (.leaf F)
+    ∀ u v w : CVec ℝ 1, reInner (vjpWrap true (T.vjpT u) w) v = reInner w (T.jvp u v) :=
+  fun u v w => (C07_operator_tree _ u v w).2.2
 
 -- `C07_group_norm_structural_zero`: a 1-D non-circular difference `[x₁−x₀, 0]` with one group per row:
 -- the second group is structurally zero, the first is non-zero at `x = (0, 1)`
